@@ -41,82 +41,61 @@ theorem quote_eval_raw (s : Str) : pyStringBody (escapeString (escBB s)) = some 
             rw [escapeString.eq_def]; simp only [h1, h3, h4, if_false]
             rw [pyStringBody.eq_def]; simp only [h3, h4, or_self, h1, if_false, ih, Option.map_some]
 
-/-- C18, string path: a well-paired string — in particular everything the back-quote lexer produces —
-    is escaped into the body of exactly one Python string literal: no raw quote, no raw newline,
-    no dangling backslash. For **every** such string. -/
-theorem escape_is_one_literal (s : Str) (h : wellPaired s = true) :
-    (pyStringBody (escapeString s)).isSome = true := by
+/-- C18, string path: **every** string is escaped into the body of exactly one Python string literal:
+    no raw quote, no raw newline, no dangling backslash.  (Before the repair of F24 this needed the
+    hypothesis `wellPaired s`; a two-character string ending in a backslash was the counterexample.) -/
+theorem escape_is_one_literal (s : Str) : (pyStringBody (escapeString s)).isSome = true := by
   induction s using escapeString.induct with
   | case1 => simp [escapeString, pyStringBody]
-  | case2 => rw [wellPaired.eq_def] at h; simp at h
+  | case2 =>
+    rw [escapeString.eq_def]; simp only [if_true]
+    have hd : ¬ (cBS = cDQ ∨ cBS = cNL) := by decide
+    rw [pyStringBody.eq_def]; simp only [hd, if_false, if_true]
+    rw [pyStringBody.eq_def]; simp
   | case3 ds ih =>
-    rw [wellPaired.eq_def] at h; simp only [if_true] at h
     rw [escapeString.eq_def]; simp only [if_true]
     have hd : ¬ (cBQ = cDQ ∨ cBQ = cNL) := by decide
     have hb : cBQ ≠ cBS := by decide
     rw [pyStringBody.eq_def]; simp only [hd, hb, if_false]
-    have := ih h
+    have := ih
     cases hp : pyStringBody (escapeString ds) with
     | none => rw [hp] at this; simp at this
     | some r => simp
   | case4 d ds hdq ih =>
-    rw [wellPaired.eq_def] at h; simp only [if_true] at h
     rw [escapeString.eq_def]; simp only [if_true, hdq, if_false]
     have hd : ¬ (cBS = cDQ ∨ cBS = cNL) := by decide
     rw [pyStringBody.eq_def]; simp only [hd, if_false, if_true]
-    have := ih h
+    have := ih
     cases hp : pyStringBody (escapeString ds) with
     | none => rw [hp] at this; simp at this
     | some r => simp
   | case5 cs hbs ih =>
-    rw [wellPaired.eq_def] at h
     have h5 : cDQ ≠ cBS := by decide
-    simp only [h5, if_false] at h
     rw [escapeString.eq_def]; simp only [h5, if_false, if_true]
     have hd : ¬ (cBS = cDQ ∨ cBS = cNL) := by decide
     rw [pyStringBody.eq_def]; simp only [hd, if_false, if_true]
-    have := ih h
+    have := ih
     cases hp : pyStringBody (escapeString cs) with
     | none => rw [hp] at this; simp at this
     | some r => simp
   | case6 cs hbs hdq ih =>
-    rw [wellPaired.eq_def] at h
     have h5 : cNL ≠ cBS := by decide
-    simp only [h5, if_false] at h
     rw [escapeString.eq_def]
     have h6 : cNL ≠ cDQ := by decide
     simp only [h5, h6, if_false, if_true]
     have hd : ¬ (cBS = cDQ ∨ cBS = cNL) := by decide
     rw [pyStringBody.eq_def]; simp only [hd, if_false, if_true]
-    have := ih h
+    have := ih
     cases hp : pyStringBody (escapeString cs) with
     | none => rw [hp] at this; simp at this
     | some r => simp
   | case7 c cs hbs hdq hnl ih =>
-    rw [wellPaired.eq_def] at h
-    simp only [hbs, if_false] at h
     rw [escapeString.eq_def]; simp only [hbs, hdq, hnl, if_false]
     rw [pyStringBody.eq_def]; simp only [hdq, hnl, or_self, hbs, if_false]
-    have := ih h
+    have := ih
     cases hp : pyStringBody (escapeString cs) with
     | none => rw [hp] at this; simp at this
     | some r => simp
-
-/-- the hypothesis is not decoration: a two-character string ending in a backslash is *not* well paired,
-    and its escaped form is not a literal body (this is finding F24: `‛a\` with the D flag) -/
-theorem wellPaired_lone : wellPaired [cBS] = false := by
-  rw [wellPaired.eq_def]; simp
-example : wellPaired [97, cBS] = false := by
-  rw [wellPaired.eq_def]
-  have : (97 : Nat) ≠ cBS := by decide
-  simp only [this, if_false]
-  exact wellPaired_lone
-example : pyStringBody (escapeString [97, cBS]) = none := by
-  rw [escapeString.eq_def]; simp [cBS, cDQ, cNL]
-  rw [escapeString.eq_def]; simp
-  rw [pyStringBody.eq_def]; simp [cBS, cDQ, cNL]
-  rw [pyStringBody.eq_def]; simp [cBS, cDQ, cNL]
-
 
 /-- the quoted text is a valid back-quote payload: every backslash and back-quote in it is escaped -/
 theorem bqValid_escBB (s : Str) : bqValid (escBB s) = true := by
